@@ -1000,8 +1000,8 @@ func vProcOp(t []string) string {
 		if vKVor(t, "log", "0") == "1" {
 			// everything the daemon logs during this history (debug level) goes to a file that op logscan reads
 			if vProcLog == "" {
-				// next to the stats file of this harness process (the check's work directory), else a scratch directory
-				if st := os.Getenv("VERIF_STATS"); st != "" {
+				// next to this harness process's result file (the check's work directory), else a scratch directory
+				if st := os.Getenv("VERIF_SCRATCH"); st != "" {
 					vProcLog = st + ".daemonlog"
 				} else {
 					dir, _ := os.MkdirTemp("", "verif-proclog")
